@@ -62,7 +62,7 @@ func TestDev(t *testing.T) {
 		}
 		fmt.Printf("runs=%d nontrivial=%d inconclusive=%d\nprobes=%v\nfaults=%v\n", n, nontriv, inconcl, probes, faults)
 		if poisoned() { // a hang left goroutines behind: the bubble cannot end
-			fmt.Printf("hangs=%d (process poisoned; leaving)\n", hangsSeen)
+			fmt.Printf("hangs=%d (process poisoned; leaving)\n", hangsLeft)
 			os.Exit(0)
 		}
 	})
